@@ -60,6 +60,7 @@ pub struct Scen {
 	pub pre: Vec<(usize, RawSt)>,
 	pub f1: Vec<usize>,
 	pub fp: Vec<(usize, Rop)>,
+	pub unw: Vec<usize>, // threads whose whole history runs inside a destructor while the thread unwinds
 	pub sched: bool,
 	pub wp: bool,
 	pub schedule: Vec<usize>,
@@ -150,6 +151,7 @@ pub fn parse(lines: &[String]) -> Scen {
 				sc.pre.push((l, st));
 			}
 			"f1" => sc.f1 = t[1..].iter().map(|x| us(x)).collect(),
+			"unw" => sc.unw = t[1..].iter().map(|x| us(x)).collect(),
 			"fp" => {
 				let mut i = 1;
 				while i + 1 < t.len() {
